@@ -24,7 +24,7 @@ func init() {
 		reach := []string{"ok"}
 		k, kt, bw := 8, 12, 0
 		if op == "Mul" {
-			k, kt, bw = 5, 7, 20
+			k, kt, bw = 5, 6, 20 // K=7 did not finish within the 90-minute budget
 		}
 		straddle, straddleT := 1, 1
 		if op == "And" || op == "Or" {
